@@ -1,5 +1,6 @@
 //! Property table: which engines decide which property, with the evidence rule texts.
 
+use crate::gen;
 use crate::common::*;
 use crate::sim::{self, Monitor};
 use crate::{catchup, fd, fuzzers, hostile, kv, listen, mtu, pairs, select, srv, wirecheck};
@@ -169,6 +170,9 @@ pub fn run_property(ctx: &Ctx) -> Option<Report> {
         }
         _ => return None,
     };
+    let mut r = r;
+    // Thorough tier: coverage-guided campaigns (libFuzzer) over the same generators and oracles.
+    gen::campaigns_for(ctx, &mut r);
     Some(r)
 }
 
